@@ -16,7 +16,7 @@ LEVEL = "exploration"
 RULE = ("a case is (scheme, configuration, JSON database with UTF-8 keywords incl. non-ASCII and mixed-case hex identifiers, order "
         "of the two independent workflow prefixes, a 'discard the client object and rebuild it from disk' bit for every step "
         "boundary, a keyword sequence of present/absent/repeated keywords, an optional server restart after the upload or "
-        "between two searches; per search the way the answer is obtained: wait=True callback or a once-handler for RESULT messages followed by "
+        "between two searches; one workflow with a keyword in 70 000 documents (index and result larger than one MiB on the wire); keyword pairs that are canonically equivalent Unicode (composed / decomposed), one stored and one absent; per search the way the answer is obtained: wait=True callback or a once-handler for RESULT messages followed by "
         "a non-blocking search; restarts are clean, hard (every server module back to its import-time state) or, for one case in eight, the "
         "server is a REAL PROCESS that is SIGKILLed right after the upload acknowledgement / between two searches while the client's "
         "connection is still open, and replaced by a new process on the same directory). The real client Service talks to the real server handler over a loopback websocket. Oracle: the "
@@ -371,6 +371,16 @@ def st_case(draw, scheme):
             kws.append(k)
     if not kws:
         kws = ["a"]
+    equiv = None
+    if draw(st.integers(0, 4)) == 0:
+        # two different keywords that are canonically equivalent Unicode (composed / decomposed): different byte strings, so
+        # different keywords; one of them is stored, the other one is (usually) asked for as an absent keyword
+        pair = draw(st.sampled_from([("caf\u00e9", "cafe\u0301"), ("\u00e5", "a\u030a"), ("\u212b", "\u00c5"), ("\ufb01", "fi"), ("\u00f1o", "n\u0303o")]))
+        if all(len(p.encode("utf-8")) <= limit for p in pair):
+            equiv = pair
+            for p in (pair if draw(st.booleans()) else pair[:1]):
+                if p not in kws:
+                    kws.append(p)
     cap_total = min(desc.max_total(cfg), 40)
     lens = []
     for _ in kws:
@@ -399,6 +409,9 @@ def st_case(draw, scheme):
     plan = draw(st.sampled_from(PLANS))
     nq = draw(st.integers(1, 5))
     queries = []
+    if equiv:
+        for p in equiv:
+            queries.append([p, "present" if p in kws else "absent"])
     for _ in range(nq):
         if draw(st.integers(0, 2)) == 0:
             a = draw(st.sampled_from([kws[0] + "x", kws[0][:-1] or "zz", "absent", kws[0].swapcase(), "ä"]))
@@ -451,11 +464,33 @@ def shards(tier):
     out = [{"kind": "hyp", "scheme": s, "i": 0} for s in S.SCHEMES]
     if tier == "thorough":
         out += [{"kind": "hyp", "scheme": s, "i": 1} for s in S.SCHEMES]
+    out.append({"kind": "large", "scheme": "CJJ14.PiPack"})
     return out
+
+
+def large_case(seed):
+    """one keyword in 70 000 documents with 16-byte identifiers: the index upload and the result each exceed one MiB on the wire"""
+    cfg = S.default_config("CJJ14.PiPack")
+    cfg["param_identifier_size"] = 16
+    ids = [(i + 1).to_bytes(16, "big").hex() for i in range(70000)]
+    return {"scheme": "CJJ14.PiPack", "cfg": cfg, "jsondb": [["the", ids], ["rare", [(10 ** 9).to_bytes(16, "big").hex()]]],
+            "plan": ["genkey", "encrypt", "upload_config", "upload_edb"], "queries": [["the", "present"], ["rare", "present"], ["none", "absent"], ["the", "present"]],
+            "recreate": [True, False, True, False, True, False, False, True], "early": [False] * 8, "restart_at": 2, "seed": seed, "styles": ["wait", "echo"],
+            "hard_restart": False}
 
 
 def run_shard(spec, seed, tier):
     res = ShardResult()
+    if spec.get("kind") == "large":
+        case = large_case(seed % 100000)
+        res.count(["large", case["seed"]], True, ["scheme:CJJ14.PiPack", "result_and_index_larger_than_one_MiB"],
+                  sample={"scheme": "CJJ14.PiPack", "database": "keyword 'the' in 70000 documents (16-byte ids), 'rare' in one", "queries": case["queries"]})
+        try:
+            run_case(case)
+        except Violation as v:
+            small = dict(case)
+            res.add_violation(small, str(v), v.bucket)
+        return res
     n = 60 if tier == "quick" else 900
     hyp.search(res, st_case(spec["scheme"]), body, seed, n)
     # the same workflows through frontend.client.commands (the functions behind run_client.py), results parsed from stdout
